@@ -212,6 +212,7 @@ type StreamOpts struct {
 	LocalIdx     func(ci, j int) bool
 	AllowMissing bool // completeness is not demanded (safety-only checks)
 	AnyError     func(ci, j int) bool // request j may be answered by any error reply
+	Alt          func(ci, j int) []byte // per-execution second acceptable reply (nil: none)
 }
 
 // CheckStreams compares every client's received bytes with the reference reply sequence.
@@ -254,6 +255,11 @@ func CheckStreams(w *world.World, o StreamOpts) []world.Violation {
 			}
 			if alt, ok := c.Spec.ExpectAlt[j]; ok && bytes.Equal(alt, r) {
 				continue
+			}
+			if o.Alt != nil {
+				if alt := o.Alt(ci, j); alt != nil && bytes.Equal(alt, r) {
+					continue
+				}
 			}
 			sig := "corrupt"
 			for k := range exp {
